@@ -3,7 +3,7 @@
 //@needs L0_calc,L1_crc
 //@attach fn=get_icao
 //@| #[cfg_attr(kani, kani::requires(crate::verif_spec::valid_msg(message) && df == crate::verif_spec::df_of(message) && crate::verif_spec::agree(message)))]
-//@| #[cfg_attr(kani, kani::ensures(|r: &Option<u32>| !matches!(df, 0 | 4 | 5 | 11 | 16 | 17 | 18 | 20 | 21) || *r == crate::verif_spec::spec_icao(message)))]
+//@| #[cfg_attr(kani, kani::ensures(|r: &Option<u32>| !matches!(df, 0 | 4 | 5 | 11 | 16 | 17 | 18 | 20 | 21) || *r == crate::verif_spec::icao_from(message, get_crc(message, df))))]
 //@attach fn=get_wake_turbulence_category
 //@| #[cfg_attr(kani, kani::ensures(|r: &Option<char>| *r == crate::verif_spec::spec_wake(vc.0, vc.1)))]
 
@@ -12,27 +12,32 @@ mod verif_c03_icao {
     use super::*;
     use crate::verif_spec::h::*;
 
-    //@ob id=C03.get_icao.14 props=C03 tier=quick kind=contract fns=adsb/icao.rs:get_icao draw=frame14
-    //@region all short frames (DF0..15): DF11 -> AA field; DF0/4/5 -> last 24 bits xor CRC-24 of the first 32; zero address dropped
-    #[kani::proof_for_contract(get_icao)]
-    #[kani::stub_verified(get_crc)]
-    #[kani::unwind(34)]
+    fn check(m: &[u32]) {
+        let df = crate::verif_spec::df_of(m);
+        kani::assume(crate::verif_spec::agree(m));
+        let r = get_icao(m, df);
+        if matches!(df, 0 | 4 | 5 | 11 | 16 | 17 | 18 | 20 | 21) {
+            assert!(r == crate::verif_spec::icao_from(m, get_crc(m, df)), "address = AA field (DF11/17/18) or AP xor CRC-24 of the preceding bits (DF0/4/5/16/20/21); zero dropped");
+        }
+    }
+
+    //@ob id=C03.get_icao.14 flags=noassert props=C03 tier=quick kind=harness fns=adsb/icao.rs:get_icao draw=frame14
+    //@region all short frames (DF0..15): DF11 -> AA field; DF0/4/5 -> last 24 bits xor get_crc (pinned to CRC-24 by L1.crc56 + L1.get_crc); zero address dropped
+    #[kani::proof]
+    #[kani::unwind(90)]
     fn c03_get_icao_14() {
         let m = any_frame14();
-        let df: u32 = kani::any();
-        get_icao(&m, df);
+        check(&m);
         kani::cover!(true, "reach_end");
     }
 
-    //@ob id=C03.get_icao.28 props=C03 tier=quick kind=contract fns=adsb/icao.rs:get_icao draw=frame28
-    //@region all long frames (DF16..31): DF17/18 -> AA field; DF16/20/21 -> last 24 bits xor CRC-24 of the first 88; zero address dropped
-    #[kani::proof_for_contract(get_icao)]
-    #[kani::stub_verified(get_crc)]
-    #[kani::unwind(34)]
+    //@ob id=C03.get_icao.28 flags=noassert props=C03 tier=quick kind=harness fns=adsb/icao.rs:get_icao draw=frame28
+    //@region all long frames (DF16..31): DF17/18 -> AA field; DF16/20/21 -> last 24 bits xor get_crc (pinned by L1.crc112 + L1.get_crc); zero address dropped
+    #[kani::proof]
+    #[kani::unwind(90)]
     fn c03_get_icao_28() {
         let m = any_frame28();
-        let df: u32 = kani::any();
-        get_icao(&m, df);
+        check(&m);
         kani::cover!(true, "reach_end");
     }
 
